@@ -773,6 +773,13 @@ Section ConcP.
         eexists; reflexivity.
   Qed.
 
+  Lemma rrun_run : forall f ls s,
+    LoggerConc.rrun D R line enabled grow f s ls = run f s (map fst ls).
+  Proof.
+    intros f ls; induction ls as [|l r IH]; intros s; simpl; [reflexivity|].
+    unfold LoggerConc.rstep. destruct (step f s (fst l)); [apply IH | reflexivity].
+  Qed.
+
   Lemma conc_discipline_flags : forall x, conc_discipline x = true -> discipline (conc_flags x) = true.
   Proof. intros x H. unfold conc_discipline in H. do 3 (apply andb_prop in H as [H _]). exact H. Qed.
 End ConcP.
